@@ -38,7 +38,7 @@ HOSTILE = ['plain', 'restart_run', 'my restart 7', 'rl = 2 test', 'it = 5', 'a->
 
 
 def cases(tier, sd):
-    n = 40 if tier == "quick" else 300
+    n = 40 if tier == "quick" else 800
     out = [dict(kind='catalogue', seed=30000 * sd + i) for i in range(n)]
     out += [dict(kind='names', seed=30000 * sd + i) for i in range(4 if tier == "quick" else 20)]
     out += [dict(kind='par', seed=30000 * sd + i) for i in range(4 if tier == "quick" else 20)]
